@@ -59,11 +59,26 @@ func runC03(ctx *Ctx, c c03Case) {
 	key := fmt.Sprintf("%v", c)
 	crashes := 0
 	inWindow := false
+	windowOuts := []string{} // `out` paths of two-output tasks that were killed between their two renames
+	downstreamOfWindow := func(o string) bool {
+		for _, w := range windowOuts {
+			if strings.HasPrefix(o, w+".") {
+				return true
+			}
+		}
+		return false
+	}
 	checkFinals := func(when string) bool {
 		ok := true
 		for o, got := range snapshotFinals(dir, c.Chain) {
 			if got != exp[o] {
-				ctx.Res.Violate(Violation{What: fmt.Sprintf("%s: final path %s holds %q, an uninterrupted run yields %q", when, o, got, exp[o]), Class: "c03.wrong-content", Witness: c})
+				class := "c03.wrong-content"
+				if downstreamOfWindow(o) {
+					// F13 seen from downstream: the skipped two-output task passes on the path of the output that
+					// was never produced, and the consumer's command reads a missing file
+					class = "c03.window-downstream"
+				}
+				ctx.Res.Violate(Violation{What: fmt.Sprintf("%s: final path %s holds %q, an uninterrupted run yields %q", when, o, got, exp[o]), Class: class, Witness: c})
 				ok = false
 			}
 		}
@@ -99,6 +114,7 @@ func runC03(ctx *Ctx, c c03Case) {
 				_, o2 := readFile(dir, t.Outs["aux"])
 				if o1 != o2 {
 					inWindow = true
+					windowOuts = append(windowOuts, t.Outs["out"])
 				}
 			}
 		}
